@@ -302,19 +302,27 @@ class Report:
                         "distinct_states": r.get("distinct", 0), "depth": r.get("depth", 0),
                         "wall_s": round(r["wall"], 1)})
 
-    def violation(self, rec, clause, detail=""):
+    def violation(self, rec, clause, detail="", trace=None):
         tag = dict(rec)
         tag["clause"] = clause
         for f in self.findings:
             if _match(f["match"], tag):
                 self.known_hits[f["what"]] = self.known_hits.get(f["what"], 0) + 1
                 return
+        if trace is not None:
+            rec = dict(rec)
+            rec["_trace"] = trace
         self.violations.append((rec, clause, detail))
 
     def apply_mismatches(self, records, mismatches):
         byid = {r["id"]: r for r in records}
+        bytid = {}
+        for r in records:
+            if "tid" in r:
+                bytid.setdefault(r["tid"], []).append(r)
         for rid, clause, detail in mismatches:
-            self.violation(byid.get(rid, {"id": rid}), clause, detail)
+            rec = byid.get(rid, {"id": rid})
+            self.violation(rec, clause, detail, trace=bytid.get(rec.get("tid")) if "tid" in rec else None)
 
     def finish(self, level="model_checking", rule="", extra_cov=None, assumptions=None):
         os.makedirs(os.path.join(VERIF, "evidence"), exist_ok=True)
@@ -329,7 +337,10 @@ class Report:
                 break
             p = os.path.join(self.rdir, "v%03d.json" % i)
             with open(p, "w") as f:
-                json.dump({"property": self.pid, "clause": clause, "detail": detail, "record": rec}, f)
+                rec = dict(rec)
+                trace = rec.pop("_trace", None)
+                json.dump({"property": self.pid, "clause": clause, "detail": detail, "record": rec,
+                           "trace": trace}, f)
             if shown < 25:
                 print("VIOLATION property=%s replay=%s clause=%s op=%s" % (self.pid, p, clause, rec.get("op", "?")))
                 shown += 1
@@ -388,3 +399,14 @@ def call(fn, *a, **kw):
         if isinstance(e, (KeyboardInterrupt, SystemExit, MemoryError)):
             raise
         return "exc", e
+
+
+def replay_file(module, path):
+    """re-validate the record (or whole multi-step trace) stored in a replay file"""
+    d = json.load(open(path))
+    recs = d.get("trace") or [d["record"]]
+    mm = validate(module, recs, shards=1)
+    print(json.dumps(d["record"])[:3000])
+    print("reported clause:", d["clause"], d.get("detail", "")[:500])
+    print("mismatches now:", mm)
+    return 1 if mm else 0
